@@ -105,12 +105,21 @@ func TestC17(t *testing.T) {
 		}
 		// 1b. alignment: ASCII runs of every length 0..136, then one of 16 multi-byte / invalid
 		// sequences, then an ASCII tail of length 0..12 (8-bytes-at-a-time scanners)
-		if e.enumStage("alignment", "ASCII run of length 0..136 + one of 16 valid/invalid sequences + ASCII tail of length 0..12 (chunked and word-at-a-time scanners)", true) {
+		if e.enumStage("alignment", "ASCII run of length 0..136 and round 256/512/1024/4096 + one of 16 valid/invalid sequences + ASCII tail of length 0..12 (chunked and word-at-a-time scanners)", true) {
 			seqs := []string{"\xff", "\x80", "\xc3", "\xc3\xa9", "\xe2\x82", "\xe2\x82\xac", "\xf0\x9f\x98", "\xf0\x9f\x98\x80", "\xed\xa0\x80", "\xc0\xaf", "\xf4\x90\x80\x80", "\xc3\xa9\xff", "\xff\xc3\xa9", "\xef\xbf\xbd", "\xef\xbf", "\xfe\xfe\xff\xff"}
-			buf := make([]byte, 0, 80)
+			buf := make([]byte, 0, 4200)
 			idx := 0
-		al:
+			var runLens []int
 			for L := 0; L <= 136; L++ {
+				runLens = append(runLens, L)
+			}
+			for _, base := range []int{256, 512, 1024, 4096} {
+				for L := base - 6; L <= base+2; L++ {
+					runLens = append(runLens, L)
+				}
+			}
+		al:
+			for _, L := range runLens {
 				for _, sq := range seqs {
 					idx++
 					if !e.cfg.Mine(idx) {
